@@ -11,6 +11,52 @@ COMMON_NOTE = ("Trusted: Coq 8.16.1 kernel incl. vm_compute (no native_compute, 
                "coq/Gen regenerated from the source and the running interpreter by harness/extract.py. ")
 
 CHECKS = {
+    "C02": dict(
+        text="Theorems (Props/C02.v, 18, all Closed under the global context): for every valid paragraph (boolean valid_para) "
+             "dump is the Policy line list and Deb822/Dsc/Changes(dump d) = the fields with first lines trimmed, in order; for "
+             "documents of any number of blocks, each plain or clearsigned, separated by >= 1 blank lines with optional leading "
+             "blank lines, iter_paragraphs returns exactly the paragraphs; the five input forms (str, bytes, file, lines with and "
+             "without line ends; LF or CRLF; with or without final line end) give the same result; a clearsign envelope is "
+             "transparent and the reader stops right behind END; comment lines anywhere are ignored (Deb822: on ANY line list; "
+             "Dsc/Changes: in the stated positions); iter_paragraphs never runs out of fuel.  Induction over field/line/block "
+             "lists, no size bound.  Model compared with Deb822/Dsc/Changes constructors, iter_paragraphs and dump on every run.",
+        design="§4 C02",
+        note=COMMON_NOTE + "Modelled not verified: regex leaves _key_part/_single/_multi/_multidata/_gpgre (compared per run, "
+             "incl. leaf sweeps); UTF-8 codec not modelled (bytes inputs are the code points of their decoding; exact for valid "
+             "UTF-8 as argued in Deb822/Model.v); _multivalued field names of Dsc/Changes are C12's; apt_pkg path absent.  "
+             "Dsc/Changes comment handling is stated for the positions listed in C02_comments_ignored_dsc_changes.",
+        technique="Coq proof (induction over fields/lines/blocks) + in-Coq differential correspondence"),
+    "C03": dict(
+        text="Theorems (Props/C03.v, 16, all Closed under the global context): for all valid version strings (C14's grammar) "
+             "_compare, version_compare and the six operators give exactly dpkg's verdict (Version/Dpkg.v: parseversion + "
+             "verrevcmp transcribed from lib/dpkg/version.c), also for any two live objects reached through setattr; the "
+             "comparison is total on integer epochs, reflexive, antisymmetric (compare(b,a) = -compare(a,b)), transitive with "
+             "inherited strictness, a congruence for equality; exactly one of < == > holds and the six operators are mutually "
+             "consistent; compare = 0 <-> identical hash keys, so equal versions hash equal.  Proved via a padded "
+             "lexicographic order on a canonical key that both the Python chunk loop and dpkg's character loop compute; all "
+             "strings, no length bound.  Model compared with Version ops/hash on every run; the spec is also compared with "
+             "/usr/bin/dpkg --compare-versions when installed.",
+        design="§4 C03",
+        note=COMMON_NOTE + "Modelled not verified: findall(r'\\d+|\\D+') leaf (py_chunks), int(), Python tuple hash modelled as "
+             "equality of the hashed key.  verrevcmp termination proved for strings without NUL whose Unicode digits are ASCII "
+             "(the validity domain).  Depends on C14's ParseProofs (inv, accepts_iff_valid).",
+        technique="Coq proof (both comparison loops compute one lexicographic key order; order laws on the key) + in-Coq differential correspondence + dpkg oracle for the spec"),
+    "C06": dict(
+        text="Theorems (Props/C06.v, 9, all Closed under the global context): for every list of well-formed members (any number, "
+             "any data) and every open mode the archive built from them opens, the listing is exactly the members in order "
+             "with name/size/owner/group/mtime, getmember = LAST member of that name or KeyError; one-call simulation between "
+             "ArMember.read/readline/readlines/seek/tell and an in-memory file over the member's data for EVERY position of the "
+             "shared file handle; hence for every op sequence interleaved across members in any way the observations pass the "
+             "same steps_ok judgement that holds applies to the implementation; for ANY archive bytes (malformed included) no "
+             "returned byte lies outside [offset, offset+size) of its member; agree c -> holds c on judged cases.  Induction "
+             "over member and op lists.  Model compared with ArFile(fileobj=/filename=) and ArMember calls on every run; the "
+             "BytesIO spec is compared with io.BytesIO.",
+        design="§4 C06",
+        note=COMMON_NOTE + "Modelled not verified: the underlying binary file (seek/read/readline/tell past EOF), header slicing "
+             "constants from Gen/ArConsts.v (used concretely: a changed constant breaks the proofs rather than re-stating them), "
+             "int() of padded decimals.  read(0) (= read all in this API), negative seek targets and whence 3 are compared but "
+             "not judged.  Error kinds on malformed archives are compared only.  Name decoding, close/iteration not modelled.",
+        technique="Coq proof (simulation against a BytesIO spec, induction over op lists) + in-Coq differential correspondence"),
     "C01": dict(
         text="Theorems (Props/C01.v, 20, all Closed under the global context), for EVERY whitespace class containing LF/SP/TAB "
              "and every pair of field-name classes: on both input forms the tokenizer returns and the token texts concatenate "
